@@ -27,6 +27,7 @@ import Hdl21Model.Props.C03
 import Hdl21Model.Lemmas.Rename
 import Hdl21Model.Lemmas.Nets
 import Hdl21Model.Lemmas.InstBundle
+import Hdl21Model.Lemmas.ArrayPass
 namespace Hdl21.Props.C01
 open Hdl21 Hdl21.Pkg
 
@@ -305,5 +306,108 @@ theorem instbundle_refusals (ty : String) (ms : List String) (conns : List (Stri
 example : (expand "Diff" false ["p", "n"] [("a", .anon [("n", .sig "y" 1), ("p", .sig "x" 1)]), ("b", .scalar (.sig "v" 1))]).toOption.map
     (fun r => r.map fun me => (me.1, me.2.map (·.1))) = some [("p", ["a", "b"]), ("n", ["a", "b"])] := by decide
 end InstBundles
+
+/-! ## instance arrays (`n * M(…)(…)`), the pass as a whole -/
+section Arrays
+open Hdl21.ArrayPass
+
+/-- **What `ArrayFlattener` makes of an instance array**: `n ≥ 1` instances, element `k` with exactly the array's ports in
+    their order, and on port `p` what `elem … k p` says of the array's connection. -/
+theorem array_expansion (ports : List (String × Port)) (n : Nat) (conns : List (String × AConn))
+    (r : List (List (String × AElem))) (h : expand ports n conns = .ok r) :
+    1 ≤ n ∧ r.length = n ∧
+    ∀ k, k < n → ∃ es, r[k]? = some es ∧ es.length = conns.length ∧
+      ∀ (i : Nat) p c, conns[i]? = some (p, c) → ∃ e, es[i]? = some (p, e) ∧ elem ports n k p c = .ok e := by
+  unfold expand at h
+  by_cases hn : n < 1
+  · simp [hn] at h
+  · simp only [hn, ↓reduceIte] at h
+    obtain ⟨l1, l2⟩ := forall2_getElem ((elements_iff ports n conns _ r).mp h)
+    simp only [List.length_range] at l1
+    refine ⟨by omega, l1.symm, fun k hk => ?_⟩
+    obtain ⟨es, e1, e2⟩ := l2 k k (by simp [hk])
+    obtain ⟨m1, m2⟩ := forall2_getElem ((elemConns_iff ports n k conns es).mp e2)
+    refine ⟨es, e1, m1.symm, fun i p c hc => ?_⟩
+    obtain ⟨⟨p', e⟩, f1, f2, f3⟩ := m2 i (p, c) hc
+    simp only at f2 f3
+    subst f2
+    exact ⟨e, f1, f3⟩
+
+/-- the kinds of connection, spelled out: a bundle instance goes to every element as it is; a connection as wide as the port
+    goes to every element as it is; one `n` times as wide is cut into `n` parts, element `k` getting `[k*w, (k+1)*w)`. -/
+theorem array_connection_kinds (ports : List (String × Port)) (n k : Nat) (p : String) :
+    (∀ b, elem ports n k p (.bundle b) = .ok (.bundle b)) ∧
+    (∀ c w, lookupP p ports = some (.sig w) → c.width = .ok w → elem ports n k p (.sig c) = .ok (.whole c)) ∧
+    (∀ c w, lookupP p ports = some (.sig w) → c.width = .ok (w * n) → w ≠ w * n →
+        elem ports n k p (.sig c) = .ok (.part c (k * w) ((k + 1) * w))) := by
+  refine ⟨fun _ => rfl, fun c w h1 h2 => ?_, fun c w h1 h2 h3 => ?_⟩
+  · simp [elem, h1, h2]
+  · simp [elem, h1, h2, h3]
+
+/-- … and the pass accepts an array exactly when it has at least one element and every connection is a bundle instance or a
+    Signal / Slice / Concat on a Signal port of the target whose width is the port's or `n` times the port's (C02). -/
+theorem array_pass_accepts_iff (ports : List (String × Port)) (n : Nat) (conns : List (String × AConn)) :
+    (∃ r, expand ports n conns = .ok r) ↔
+      1 ≤ n ∧ ∀ pc ∈ conns, match pc.2 with
+        | .bundle _ => True
+        | .sig c => ∃ w cw, lookupP pc.1 ports = some (.sig w) ∧ c.width = .ok cw ∧ (w = cw ∨ w * n = cw)
+        | _ => False := by
+  have key : ∀ p c, accepted ports n p c ↔ (match c with
+        | .bundle _ => True
+        | .sig c => ∃ w cw, lookupP p ports = some (.sig w) ∧ c.width = .ok cw ∧ (w = cw ∨ w * n = cw)
+        | _ => False) := by
+    intro p c
+    unfold accepted
+    cases c with
+    | bundle b => simp [elem]
+    | portref => simp [elem]
+    | other => simp [elem]
+    | sig c =>
+      simp only [elem]
+      cases hp : lookupP p ports with
+      | none => simp
+      | some pt =>
+        cases pt with
+        | bundle => simp
+        | sig w =>
+          cases hw : c.width with
+          | error x => simp
+          | ok cw =>
+            by_cases h1 : w = cw
+            · simp [h1]
+            · by_cases h2 : w * n = cw
+              · simp [h1, h2]
+              · simp [h1, h2]
+  constructor
+  · rintro ⟨r, h⟩
+    obtain ⟨hn, _, hk⟩ := array_expansion ports n conns r h
+    refine ⟨hn, fun pc hpc => ?_⟩
+    obtain ⟨es, _, _, he⟩ := hk 0 (by omega)
+    obtain ⟨i, hi⟩ := List.getElem?_of_mem hpc
+    obtain ⟨e, _, h2⟩ := he i pc.1 pc.2 hi
+    exact (key pc.1 pc.2).mp ⟨e, h2⟩
+  · rintro ⟨hn, hall⟩
+    unfold expand
+    rw [if_neg (by omega)]
+    exact elements_ok_of_accepted ports n conns (fun pc hpc => (key pc.1 pc.2).mpr (hall pc hpc)) _
+
+/-- the part an element gets stands for exactly its `w` bits of the connection (`array_element_bits`), so that the `n` parts
+    partition the connection: bit `i` of the connection is bit `i % w` of element `i / w`'s port and of no other. -/
+theorem array_parts_partition (c : SConn) (bs : List Bit) (n w : Nat) (hd : c.denote = .ok bs) (hlen : bs.length = n * w)
+    (hw : 0 < w) (i : Nat) (hi : i < n * w) :
+    ∃ sc es, (AElem.part c ((i / w) * w) ((i / w + 1) * w)).conn = some sc ∧ sc.denote = .ok es ∧ es.length = w ∧
+      es[i % w]? = bs[i]? := by
+  have hk : i / w < n := by
+    apply (Nat.div_lt_iff_lt_mul hw).mpr; exact hi
+  obtain ⟨es, h1, h2, h3⟩ := array_element_bits c bs n w (i / w) hd hlen hk hw
+  refine ⟨_, es, rfl, h1, h2, ?_⟩
+  rw [h3 (i % w) (Nat.mod_lt _ hw)]
+  congr 1
+  rw [Nat.mul_comm]; exact Nat.div_add_mod i w
+
+example : (expand [("d", .sig 2), ("ck", .sig 1)] 3 [("d", .sig (.sig "bus" 6)), ("ck", .sig (.sig "clk" 1))]).toOption.map
+    (fun r => r.map fun es => es.map fun pe => match pe.2 with | .part _ lo hi => (pe.1, lo, hi) | _ => (pe.1, 0, 0)) =
+    some [[("d", 0, 2), ("ck", 0, 0)], [("d", 2, 4), ("ck", 0, 0)], [("d", 4, 6), ("ck", 0, 0)]] := by decide
+end Arrays
 
 end Hdl21.Props.C01
